@@ -409,8 +409,15 @@ func init() {
 			if d.fail != "" {
 				return ex.codecError(d.fail)
 			}
-			if _, more := d.tryByte(); more {
-				return ex.codecError("trailing data")
+			for {
+				b, more := d.tryByte()
+				if !more {
+					break
+				}
+				ws := mkOr(mkOr(mkEq(b, byteConst(' ')), mkEq(b, byteConst('\n'))), mkOr(mkEq(b, byteConst('\r')), mkEq(b, byteConst('\t'))))
+				if !ex.branch(ws, "json-trailing-ws") {
+					return ex.codecError("trailing data")
+				}
 			}
 			store(pt.Elem(), cell, v)
 			return Iface{}
@@ -464,4 +471,42 @@ func (ex *Exec) eofError() Value {
 		}
 	}
 	return ex.newErrorString("EOF")
+}
+
+// json.Encoder.Encode: one model-codec value per call, newline-terminated, as
+// the real encoder writes one line per call.
+func init() {
+	extraIntrinsics = append(extraIntrinsics, func(p *Program) {
+		p.reg("(*encoding/json.Encoder).Encode", func(ex *Exec, fr *Frame, args []Value) Value {
+			encT := ex.p.namedType("encoding/json", "Encoder")
+			enc := (*ex.nonNil(fr, args[0])).(Struct)
+			w := ex.getField(enc, encT, "w")
+			itf := args[1].(Iface)
+			f := &flatEnc{ex: ex}
+			if itf.t == nil {
+				f.out = strBytes("null")
+			} else {
+				t, v := itf.t, itf.v
+				for {
+					pt, isPtr := t.Underlying().(*types.Pointer)
+					if !isPtr {
+						break
+					}
+					pv := v.(*Value)
+					if pv == nil {
+						f.out = strBytes("null")
+						t = nil
+						break
+					}
+					t, v = pt.Elem(), *pv
+				}
+				if t != nil {
+					f.enc(t, v)
+				}
+			}
+			out := append(termsToValues(f.out), byteConst('\n'))
+			res := ex.invoke(fr, w, "Write", out).(Tuple)
+			return res[1]
+		})
+	})
 }
